@@ -15,6 +15,9 @@ Decides:
                            no path from its result back to the call avoids the Ok edge of its result test.
  K6 text is carried        ParseWith/ParseGuard/argument/positional put the conversion error text / guard
                            message into ParseFailed/GuardFailed and Message::render writes that field.
+ E  environment absence   "unset" means std::env::var_os returned None: the environment lookups of flags and arguments are the
+                           listed var_os sites (a lossy or fallible read such as env::var would turn a set but non-UTF-8
+                           variable into "absent" and let a default mask it) - shared with C18.
 Does not decide: which error survives for a particular nesting inside alternatives."""
 import re
 from core import *
@@ -27,7 +30,7 @@ LEVEL = 'other'
 EXPLANATION = __doc__
 ASSUMPTIONS = ['user closures (parse/guard functions, FromStr) are total and pure',
                'third-party Parser impls cannot consume items (State::remove is crate-private, see C05)']
-FLOORS = {'K1.classification': 17, 'K2.context': 20, 'K3.consult': 120, 'K4.discipline': 9, 'K5.loops': 11, 'K6.text': 7}
+FLOORS = {'K1.classification': 17, 'K2.context': 20, 'K3.consult': 120, 'K4.discipline': 9, 'K5.loops': 11, 'K6.text': 7, 'E.env-absence': 2}
 
 CATCHABLE = {'NoEnv', 'ParseSome', 'ParseFail', 'PureFailed', 'Missing', 'NonStrictPos'}
 
@@ -58,6 +61,8 @@ def run(ctx):
         k2(ctx, cfg, fs, table)
         k3(ctx, cfg, fs, table)
         k4(ctx, cfg, fs)
+        import c08, c18
+        c08.keep_only(ctx, lambda: c18.who(ctx, cfg, fs), lambda o: o.key.startswith(('params::', '<params::')) and 'std::env::' in o.key, 'E.env-absence')
         k5(ctx, cfg, fs)
         k6(ctx, cfg, fs)
 
